@@ -146,6 +146,7 @@ def make_run(cfg):
 
     def run_fn(chooser):
         config.reset(False)
+        config.COMMTIMEOUT = float(cfg.get("commtimeout", 0.0))
         sch = S.Scheduler(chooser, watch=watch)
         sch.install()
         violations = []
@@ -324,6 +325,9 @@ def configs(tier):
     for t3 in rww:
         for init in (("empty", "x_xy") if t3[1] == "regsafe_x" else ("x",)):
             out.append({"backend": "memory", "init": init, "threads": [[o] for o in t3], "p": 2, "r": 4 if quick else 8})
+    # a communication timeout is configured (anything in the name server that waits with a bound may see the bound run out)
+    for th in ([["remove_x"], ["remove_x"]], [["regsafe_x"], ["regsafe2_x"]], [["setmeta_x"], ["remove_x"]]):
+        out.append({"backend": "memory", "init": "x" if th[0][0] != "regsafe_x" else "empty", "threads": th, "commtimeout": 2.0, "p": 2, "r": 10 ** 6})
     # the auto-clean thread removes unreachable names while clients work on them
     for th in ([["remove_x"]], [["lookup_x", "lookup_x"]], [["setmeta_x"]], [["list_prefix_x"]], [["regsafe_x"]]):
         for init in ("x", "x_xy"):
